@@ -532,6 +532,8 @@ func (k *KVStore) scanCommon(cursor uint64, expr string, count int, f func(e sto
 				// Invalid cursor
 				return 0, nil
 			}
+			// The next existing table
+			return k.tableSize * cf, nil
 		}
 		// The next table
 		return k.tableSize * (cf + 1), nil
